@@ -89,12 +89,25 @@ class Container:
             op.transition(OperatorState.RUNNING)
 
             segments = op.get_segments()
-            for seg_idx, seg in enumerate(segments):
-                # Calculate ticks for I/O phase and CPU phase
+
+            # Calculate ticks for the I/O phase and CPU phase of every segment
+            seg_ticks = []
+            for seg in segments:
                 io_secs = seg.get_io_seconds()
                 cpu_secs = seg.get_cpu_time(self.assignment.cpu)
                 io_ticks = int(io_secs / self.tick_length_secs)
                 cpu_ticks = int(cpu_secs / self.tick_length_secs)
+                seg_ticks.append((io_ticks, cpu_ticks))
+            # an operator occupies at least one tick: if all of its segments
+            # round down to zero ticks, the last one runs for a single
+            # (CPU phase) tick
+            if segments and sum(io + cpu for io, cpu in seg_ticks) == 0:
+                seg_ticks[-1] = (0, 1)
+            total_op_ticks = sum(io + cpu for io, cpu in seg_ticks)
+            op_ticks_done = 0
+
+            for seg_idx, seg in enumerate(segments):
+                io_ticks, cpu_ticks = seg_ticks[seg_idx]
                 total_seg_ticks = io_ticks+cpu_ticks
 
                 for i in range(total_seg_ticks):
@@ -115,12 +128,13 @@ class Container:
                     while self._current_memory > self.assignment.ram:
                         yield
 
-                    # are we at the end of the op (last tick of last
-                    # seg)?  if so, we're either completed, or we can
-                    # suspend, depending on whether this is the last
-                    # op.
+                    # are we at the end of the op (its last tick; later
+                    # segments may take zero ticks)?  if so, we're either
+                    # completed, or we can suspend, depending on whether
+                    # this is the last op.
                     self._can_suspend = False
-                    if seg_idx == len(segments)-1 and i == total_seg_ticks - 1:
+                    op_ticks_done += 1
+                    if op_ticks_done == total_op_ticks:
                         # Operator completed successfully
                         op.transition(OperatorState.COMPLETED)
                         self._current_op_idx += 1
